@@ -402,6 +402,8 @@ def run_property(mod, tier, seed, *, budget_s=None, verbose=True):
                     total.merge(d)
                 if set(total.violations) - before:
                     found_new = True
+            pool.close()
+            pool.join()          # let the workers exit normally (needed for line-coverage measurement of the workers)
         seen_keys = list(total.violations)
         if not found_new or time.time() > deadline:
             break
